@@ -61,6 +61,7 @@ def run(prog: Program, rep: Report, tier: str) -> None:
     rep.rule("R13.2", "conversion formulas: step2time = start +- n*dt; Nsteps; time2step o step2time = id; nctime values", 10)
     rep.rule("R13.3", "unit tables: ISO letters / [value, unit] / unit_table denote the numpy codes of the same meaning", 6)
     rep.rule("R13.4", "normalize_period is total: every path returns a period or raises ValueError", 5)
+    rep.rule("R13.5", "each accepted non-string spelling (int, timedelta64, datetime.timedelta, [n, unit]) evaluates to its own number of seconds; malformed lists are refused", 8)
     n, dt, start, ref, T = (NF.atom(x) for x in ("n", "dt", "start", "ref", "T"))
 
     for rev in (False, True):
@@ -187,9 +188,8 @@ def run(prog: Program, rep: Report, tier: str) -> None:
     rep.check("R13.3", npf.qual, "ISO unit letter lowered before use as numpy code", lowered, what_bad="numpy reads 'M' as months and rejects 'H'/'S': the letter must be lowered", what_ok="item[-1].lower()", loc=npf.loc())
     for letter, _, _ in letters:
         rep.check("R13.3", npf.qual, f"ISO letter {letter} -> numpy code {letter.lower()!r}", MEANING.get(letter.lower()) == {"H": "hours", "M": "minutes", "S": "seconds"}[letter], what_bad="meaning mismatch", what_ok=MEANING.get(letter.lower(), "?"), loc=npf.loc())
-    # seconds branch
-    sec_ok = any(isinstance(n, ast.Return) and isinstance(n.value, ast.Call) and unparse(n.value.func) == "np.timedelta64" and len(n.value.args) == 2 and unparse(n.value.args[0]) == "per" and unparse(n.value.args[1]) in ("'s'", '"s"') for n in walk_no_nested(npf.node))
-    rep.check("R13.3", npf.qual, "plain numbers are seconds", sec_ok, what_bad="an integer period must be np.timedelta64(per, 's')", what_ok="np.timedelta64(per, 's')", loc=npf.loc())
+
+    period_spellings(prog, rep)
 
     # R13.4 totality
     paths = enumerate_paths(npf.node.body, unroll=(0, 1, 2))
@@ -213,6 +213,217 @@ def run(prog: Program, rep: Report, tier: str) -> None:
     rep.check("R13.4", npf.qual, "all paths end in return <period> or raise ValueError", all(p.exit in ("return", "raise") for p in paths), what_bad="a path falls through", what_ok=f"{len(paths)} paths", loc=npf.loc())
 
 
+# ---------------------------------------------------------------------------
+# R13.5 every accepted spelling denotes the same duration (duration algebra)
+# ---------------------------------------------------------------------------
+UNIT_SECONDS = {"s": 1, "m": 60, "h": 3600, "D": 86400}
+
+
+class _Unknown(Exception):
+    pass
+
+
+class _Raised(Exception):
+    pass
+
+
+class _Ret(Exception):
+    def __init__(self, v):
+        self.v = v
+
+
+def _type_names(v) -> set:
+    k = v[0]
+    return {"count": {"int"}, "dur": {"np.timedelta64", "numpy.timedelta64", "timedelta64"}, "pytd": {"datetime.timedelta", "timedelta"}, "str": {"str"}, "list": {"list"}}.get(k, set())
+
+
+def _dur_eval(e: ast.expr, env: dict):
+    """Value of `e` in the duration algebra: ("count", NF) | ("dur", NF seconds) | ("pytd",) |
+    ("str", s) | ("list", [..]) | ("bool", b). Raises _Unknown outside the algebra."""
+    if isinstance(e, ast.Constant):
+        if isinstance(e.value, bool):
+            return ("bool", e.value)
+        if isinstance(e.value, (int, float)):
+            from fractions import Fraction
+
+            return ("count", NF.const(Fraction(e.value).limit_denominator(10**9)))
+        if isinstance(e.value, str):
+            return ("str", e.value)
+        raise _Unknown(unparse(e))
+    if isinstance(e, ast.Name):
+        if e.id in env:
+            return env[e.id]
+        raise _Unknown(e.id)
+    if isinstance(e, ast.Attribute):
+        b = _dur_eval(e.value, env)
+        if b[0] == "pytd":
+            if e.attr == "seconds":
+                return ("count", NF.atom("td.seconds"))
+            if e.attr == "days":
+                return ("count", NF.atom("td.days"))
+            if e.attr == "microseconds":
+                return ("count", NF.const(0))  # one-second lattice
+        raise _Unknown(unparse(e))
+    if isinstance(e, ast.Call):
+        fn = unparse(e.func)
+        if fn == "isinstance" and len(e.args) == 2:
+            v = _dur_eval(e.args[0], env)
+            ts = e.args[1].elts if isinstance(e.args[1], ast.Tuple) else [e.args[1]]
+            return ("bool", any(unparse(t) in _type_names(v) for t in ts))
+        if fn in ("np.timedelta64", "numpy.timedelta64", "timedelta64") and e.args and not e.keywords:
+            v = _dur_eval(e.args[0], env)
+            u = _dur_eval(e.args[1], env) if len(e.args) > 1 else None
+            if u is not None and (u[0] != "str" or u[1] not in UNIT_SECONDS):
+                raise _Unknown(f"unit {unparse(e.args[1])}")
+            if v[0] == "count":
+                if u is None:
+                    raise _Unknown("unit-less count")
+                return ("dur", v[1] * UNIT_SECONDS[u[1]])
+            if v[0] == "dur":
+                if u is not None and u[1] != "s":
+                    raise _Unknown("conversion to a coarser unit truncates")
+                return v
+            if v[0] == "pytd":
+                if u is not None and u[1] != "s":
+                    raise _Unknown("conversion to a coarser unit truncates")
+                return ("dur", NF.atom("td.days") * 86400 + NF.atom("td.seconds"))
+            raise _Unknown(unparse(e))
+        if isinstance(e.func, ast.Attribute) and e.func.attr == "total_seconds" and not e.args:
+            b = _dur_eval(e.func.value, env)
+            if b[0] == "pytd":
+                return ("count", NF.atom("td.days") * 86400 + NF.atom("td.seconds"))
+        if isinstance(e.func, ast.Attribute) and e.func.attr == "astype" and len(e.args) == 1:
+            b = _dur_eval(e.func.value, env)
+            a = _dur_eval(e.args[0], env)
+            if b[0] == "dur" and a[0] == "str" and a[1] in ("m8[s]", "timedelta64[s]", "<m8[s]"):
+                return b
+        if fn in ("int", "round", "float") and len(e.args) == 1:
+            v = _dur_eval(e.args[0], env)
+            if v[0] == "count":
+                return v
+        raise _Unknown(unparse(e))
+    if isinstance(e, ast.BinOp):
+        a, b = _dur_eval(e.left, env), _dur_eval(e.right, env)
+        op = type(e.op)
+        if a[0] == b[0] == "count":
+            if op is ast.Add:
+                return ("count", a[1] + b[1])
+            if op is ast.Sub:
+                return ("count", a[1] - b[1])
+            if op is ast.Mult:
+                return ("count", a[1] * b[1])
+            if op is ast.Div and not b[1].atoms():
+                return ("count", a[1] / b[1])
+        if a[0] == b[0] == "dur" and op in (ast.Add, ast.Sub):
+            return ("dur", a[1] + b[1] if op is ast.Add else a[1] - b[1])
+        if {a[0], b[0]} == {"dur", "count"} and op is ast.Mult:
+            return ("dur", a[1] * b[1])
+        if a[0] == "dur" and b[0] == "count" and op is ast.Div and not b[1].atoms():
+            return ("dur", a[1] / b[1])
+        if a[0] == b[0] == "dur" and op is ast.Div and not b[1].atoms():
+            return ("count", a[1] / b[1])
+        raise _Unknown(unparse(e))
+    if isinstance(e, ast.BoolOp):
+        vals = [_dur_eval(v, env) for v in e.values]
+        if all(v[0] == "bool" for v in vals):
+            return ("bool", all(v[1] for v in vals) if isinstance(e.op, ast.And) else any(v[1] for v in vals))
+        raise _Unknown(unparse(e))
+    if isinstance(e, ast.UnaryOp) and isinstance(e.op, ast.Not):
+        v = _dur_eval(e.operand, env)
+        if v[0] == "bool":
+            return ("bool", not v[1])
+    if isinstance(e, ast.UnaryOp) and isinstance(e.op, ast.USub):
+        v = _dur_eval(e.operand, env)
+        if v[0] in ("count", "dur"):
+            return (v[0], -v[1])
+    if isinstance(e, (ast.List, ast.Tuple)):
+        return ("list", [_dur_eval(x, env) for x in e.elts])
+    if isinstance(e, ast.Subscript) and isinstance(e.slice, ast.Constant) and isinstance(e.slice.value, int):
+        b = _dur_eval(e.value, env)
+        if b[0] == "list" and -len(b[1]) <= e.slice.value < len(b[1]):
+            return b[1][e.slice.value]
+    raise _Unknown(unparse(e))
+
+
+def _dur_exec(stmts, env: dict) -> None:
+    for st in stmts:
+        if isinstance(st, ast.Expr) and isinstance(st.value, ast.Constant):
+            continue
+        if isinstance(st, ast.Return):
+            if st.value is None:
+                raise _Unknown("return without a value")
+            raise _Ret(_dur_eval(st.value, env))
+        if isinstance(st, ast.Raise):
+            raise _Raised()
+        if isinstance(st, ast.If):
+            t = _dur_eval(st.test, env)
+            if t[0] != "bool":
+                raise _Unknown(f"test {unparse(st.test)}")
+            _dur_exec(st.body if t[1] else st.orelse, env)
+            continue
+        if isinstance(st, ast.Try):
+            _dur_exec(st.body, env)
+            _dur_exec(st.orelse, env)
+            _dur_exec(st.finalbody, env)
+            continue
+        if isinstance(st, (ast.Assign, ast.AnnAssign)):
+            if st.value is None:
+                continue
+            v = _dur_eval(st.value, env)
+            tgts = st.targets if isinstance(st, ast.Assign) else [st.target]
+            for t in tgts:
+                if isinstance(t, ast.Name):
+                    env[t.id] = v
+                elif isinstance(t, (ast.Tuple, ast.List)) and v[0] == "list" and len(v[1]) == len(t.elts) and all(isinstance(x, ast.Name) for x in t.elts):
+                    for x, xv in zip(t.elts, v[1]):
+                        env[x.id] = xv
+                else:
+                    raise _Unknown(short(st))
+            continue
+        if isinstance(st, ast.Expr) and isinstance(st.value, ast.Call) and unparse(st.value.func).split(".")[0] in ("logger", "logging", "warnings", "print"):
+            continue
+        if isinstance(st, ast.Pass):
+            continue
+        raise _Unknown(short(st))
+    return None
+
+
+def period_spellings(prog: Program, rep: Report) -> None:
+    rule = "R13.5"
+    npf = prog.func("timekeeper.normalize_period")
+    param = npf.params[0]
+    n = NF.atom("n")
+    td = NF.atom("td.days") * 86400 + NF.atom("td.seconds")
+    cases = [
+        ("int n (seconds)", ("count", n), n),
+        ("np.timedelta64 of D seconds", ("dur", NF.atom("D")), NF.atom("D")),
+        ("datetime.timedelta(days, seconds)", ("pytd",), td),
+    ] + [(f"[n, {u!r}]", ("list", [("count", n), ("str", u)]), n * UNIT_SECONDS[u]) for u in ("s", "m", "h")]
+    for label, val, want in cases:
+        try:
+            _dur_exec(npf.node.body, {param: val})
+            rep.bad(rule, npf.qual, f"spelling {label}", "falls off the end (returns None)", npf.loc())
+        except _Ret as r:
+            got = r.v
+            ok = got[0] == "dur" and got[1] == want
+            rep.check(rule, npf.qual, f"spelling {label}", ok, what_bad=f"denotes {want.canon()} seconds, normalize_period returns {got[1].canon() if got[0] in ('dur', 'count') else got[0]} ({'a duration' if got[0] == 'dur' else 'not a duration'}): the spellings of one period disagree", what_ok=f"{want.canon()} s", loc=npf.loc())
+        except _Raised:
+            rep.bad(rule, npf.qual, f"spelling {label}", "an accepted spelling is rejected (raise reached)", npf.loc())
+        except _Unknown as u:
+            rep.add(rule, npf.qual, f"spelling {label}", None, f"outside the duration algebra: {u}", npf.loc())
+    # malformed spellings of the list form are refused
+    for label, val in (("[1.5, 'h'] (non-integer value)", ("list", [("float",), ("str", "h")])), ("['h', 1] (swapped)", ("list", [("str", "h"), ("count", NF.const(1))]))):
+        try:
+            _dur_exec(npf.node.body, {param: val})
+            rep.bad(rule, npf.qual, f"malformed {label}", "falls off the end (returns None): accepted silently", npf.loc())
+        except _Ret as r:
+            rep.bad(rule, npf.qual, f"malformed {label}", "a period is returned for a malformed spelling", npf.loc())
+        except _Raised:
+            rep.ok(rule, npf.qual, f"malformed {label}", "raise reached", npf.loc())
+        except _Unknown as u:
+            rep.add(rule, npf.qual, f"malformed {label}", None, f"outside the duration algebra: {u}", npf.loc())
+
+
 from ..selftest import Mut  # noqa: E402
 
 TK = "ladim/timekeeper.py"
@@ -231,7 +442,11 @@ AUDIT = [
     Mut("iso-no-lower", TK, "                unit = item[-1].lower()", "                unit = item[-1]", rule="R13.3"),
     Mut("iso-pattern-order", TK, r'pattern = r"^PT(\d+H)?(\d+M)?(\d+S)?$"', r'pattern = r"^PT(\d+H)?(\d+S)?(\d+M)?$"', rule="R13.3"),
     Mut("iso-unanchored", TK, r'pattern = r"^PT(\d+H)?(\d+M)?(\d+S)?$"', r'pattern = r"^PT(\d+H)?(\d+M)?(\d+S)?"', rule="R13.3"),
-    Mut("int-minutes", TK, '        return np.timedelta64(per, "s")', '        return np.timedelta64(per, "m")', rule="R13.3"),
+    Mut("int-minutes", TK, '        return np.timedelta64(per, "s")', '        return np.timedelta64(per, "m")', rule="R13.5"),
+    Mut("timedelta-seconds-attr", TK, '    if isinstance(per, (int, np.timedelta64, datetime.timedelta)):\n        return np.timedelta64(per, "s")', '    if isinstance(per, (int, np.timedelta64)):\n        return np.timedelta64(per, "s")\n    if isinstance(per, datetime.timedelta):\n        return np.timedelta64(per.seconds, "s")', rule="R13.5"),
+    Mut("list-unit-ignored", TK, '                return np.timedelta64(np.timedelta64(value, unit), "s")', '                return np.timedelta64(value, "s")', rule="R13.5"),
+    Mut("benign-timedelta-total-seconds", TK, '    if isinstance(per, (int, np.timedelta64, datetime.timedelta)):\n        return np.timedelta64(per, "s")', '    if isinstance(per, datetime.timedelta):\n        return np.timedelta64(int(per.total_seconds()), "s")\n    if isinstance(per, (int, np.timedelta64)):\n        return np.timedelta64(per, "s")', expect="silent"),
+    Mut("benign-timedelta-days-seconds", TK, '    if isinstance(per, (int, np.timedelta64, datetime.timedelta)):\n        return np.timedelta64(per, "s")', '    if isinstance(per, datetime.timedelta):\n        return np.timedelta64(per.days * 86400 + per.seconds, "s")\n    if isinstance(per, (int, np.timedelta64)):\n        return np.timedelta64(per, "s")', expect="silent"),
     Mut("final-raise-dropped", TK, '    # None of the above\n    raise ValueError(f"{per} is not a valid time period")', "    # None of the above\n    pass", rule="R13.4"),
     Mut("match-none-accepted", TK, '        if m is None:\n            raise ValueError(f"{per} is not a valid time period")', "        if m is None:\n            return None", rule="R13.4"),
     Mut("benign-step2time-mult", TK, "            return self.start_time - step * self.dt\n        return self.start_time + step * self.dt", "            return self.start_time - self.dt * step\n        sign = 1\n        return self.start_time + sign * step * self.dt", expect="silent"),
